@@ -25,6 +25,10 @@ def _int(s, k, d=None):
         return d
 
 
+def _tohex(b):
+    return b.hex() if b else "-"
+
+
 def _unhex(h):
     return b"" if h == "-" else bytes.fromhex(h)
 
@@ -311,6 +315,7 @@ class C07(Spec):
                 Stream("deep", "c07.deep", 0, timeout=60),
                 Stream("big", "c07.big", 0, timeout=10),
                 Stream("marshal", "c07.mar", 0, envs={"default": {}, "vm": VM}, timeout=10, use_model=False),
+                Stream("types", "c07.types", 0, timeout=10, use_model=False),
             ]
         return [
             Stream("fmterr-grid", "c07.fmt", 60000, timeout=0.05),
@@ -320,6 +325,7 @@ class C07(Spec):
             Stream("big", "c07.big", 0, timeout=60),
             Stream("big-alt", "c07.bigq", 0, envs={"optdec": OPTDEC, "noavx2": NOAVX2}, timeout=60),
             Stream("marshal", "c07.mar", 0, envs={"default": {}, "vm": VM}, timeout=60, use_model=False),
+            Stream("types", "c07.types", 0, envs={"default": {}, "optdec": OPTDEC}, timeout=60, use_model=False),
         ]
 
     def extra(self, ctx):
@@ -381,7 +387,13 @@ class C07(Spec):
                 e = _int(s, "skend")
                 if e < 0 or e > L:
                     out.append(("pos-outside-input", "%s: Skip reports error position %d for an input of %d bytes" % (env, e, L)))
-            if _int(s, "errlen", 0) > 4 * L + 1024:
+            if "uvstr" in s and case[0] in ("crash", "deep", "big"):
+                # the decoders' only *json.UnsupportedValueError is the shared "Value nesting too deep" value: an empty or
+                # unprintable Str means the error header was read from the wrong place
+                raw = _unhex(s["uvstr"]) if s["uvstr"] != "PANIC" else b"\x00"
+                if not raw or any(c < 0x20 or c > 0x7e for c in raw):
+                    out.append(("malformed-error-value", "%s: *json.UnsupportedValueError with Str=%r" % (env, raw)))
+            if _int(s, "errlen", 0) > 4 * L + 1024 + 2 * _int(s, "tlen", 0):
                 out.append(("unbounded-message", "%s: message of %s bytes for an input of %d bytes (%s)" % (env, s.get("errlen"), L, s.get("et"))))
             if s.get("bkind") == "dec":
                 if s.get("bparse") == "fail":
@@ -423,6 +435,8 @@ class C07(Spec):
             return int(case[3]) >= 1000
         if case[0] == "big":
             return True
+        if case[0] == "rtype":
+            return case[2] in ("selfptr", "mutptr", "selfholder", "selfslice", "selfmap") or int(case[3]) >= 100
         for s in sonic.values():
             if s.get("sonic") != "ok" or _int(s, "nerr", 0) > 0:
                 return True
@@ -442,6 +456,11 @@ class C07(Spec):
                 if 0 < nd < d:
                     c.append(case[:3] + [str(nd)] + case[4:])
         elif case[0] == "big":
+            n = int(case[3])
+            for nn in (n // 2, n - 1):
+                if 0 < nn < n:
+                    c.append(case[:3] + [str(nn)])
+        elif case[0] == "rtype":
             n = int(case[3])
             for nn in (n // 2, n - 1):
                 if 0 < nn < n:
@@ -640,7 +659,55 @@ class C07(Spec):
                 return env.startswith("optdec") and bool(m) and int(m.group(1)) == int(m.group(2)) + 1
             return bad_envs(d, pred)
 
+        def stream_buffered_after_error_panic(d, params):
+            # StreamDecoder.Buffered() after a failed Decode: setErr dropped the buffer but kept scanp -> buf[scanp:] on nil
+            if d["kind"] != "panic" or d["case"][1] != "streambuf":
+                return False
+            import re
+            rx = re.compile(r"slice bounds out of range \[(\d+):0\]$")
+            return bad_envs(d, lambda env, s: bool(rx.search(s.get("panic", ""))) if s.get("sonic") == "PANIC" else None)
+
+        def decoder_depth_error_wrong_header(d, params):
+            # jitdec stack_error loads &stackOverflow (the address of the variable) instead of the pointer it holds
+            if d["kind"] != "malformed-error-value":
+                return False
+            api = d["case"][1]
+            if not (api.startswith("um") or api.startswith("dec_") or api.startswith("stream") or api == "node_unmarshal"):
+                return False
+            return bad_envs(d, lambda env, s: (not env.startswith("optdec") and s.get("uvstr") == "-" and s.get("et") == "*json.UnsupportedValueError")
+                            if "uvstr" in s and s.get("uvstr") != _tohex(b"Value nesting too deep") else None)
+
+        def selfref_pointer_type_compile_hang(d, params):
+            # decoder compile of `type P *P` (or A *B / B *A) never ends: compilePtr dereferences "all the way down"
+            # (the alternative decoder stops at 4096 levels but throws the limit: `panic(*stackOverflow)`, a struct value, which
+            # its rescue() re-panics)
+            if d["kind"] not in ("hang", "crash", "panic") or d["case"][0] != "rtype":
+                return False
+            if d["case"][2] not in ("selfptr", "mutptr", "selfholder", "selfslice", "selfmap") or d["case"][1] not in ("unmnull", "unm1", "unmobj", "pre", "predec"):
+                return False
+
+            def pred(env, s):
+                if s.get("sonic") in ("HANG", "CRASH") and d["kind"] in ("hang", "crash"):
+                    return not env.startswith("optdec")
+                if s.get("sonic") == "PANIC" and d["kind"] == "panic":
+                    return env.startswith("optdec") and "Value nesting too deep" in s.get("panic", "")
+                return None
+            return bad_envs(d, pred)
+
+        def type_nesting_too_deep_panic(d, params):
+            # compile-time budget: Program.tag panics with a string, rescue() re-panics everything that is not an error
+            if d["kind"] != "panic" or d["case"][0] != "rtype" or int(d["case"][3]) < int(params.get("min_depth", 1 << 30)):
+                return False
+            # (the alternative decoder throws its own limit as a struct value: `{... Value nesting too deep}`)
+            return bad_envs(d, lambda env, s: (s.get("panic") == "type nesting too deep" or
+                                               (env.startswith("optdec") and "Value nesting too deep}" in s.get("panic", "")))
+                            if s.get("sonic") == "PANIC" else None)
+
         return {"truncated_input_pos_past_end": truncated_input_pos_past_end,
+                "stream_buffered_after_error_panic": stream_buffered_after_error_panic,
+                "decoder_depth_error_wrong_header": decoder_depth_error_wrong_header,
+                "selfref_pointer_type_compile_hang": selfref_pointer_type_compile_hang,
+                "type_nesting_too_deep_panic": type_nesting_too_deep_panic,
                 "optdec_base64_single_pad_panic": optdec_base64_single_pad_panic,
                 "ast_unset_pop_get_nil_deref": ast_unset_pop_get_nil_deref,
                 "utf8_repaired_source_pos": utf8_repaired_source_pos,
